@@ -41,8 +41,11 @@ def genRecord (frame : G Bytes) : G SRecord := do
     let n ← range 0 40
     pure (.function (← bytesOf n))
   | _ => do
-    let f ← pick [0, 5, 1004, 1005, 1006, 1007, 1008, 1012, 1035, 1039, 2000, 4294967295]
-    let n ← range 0 10
+    -- records of other enterprises (data_format = enterprise << 12 | format) whose low 12 bits equal a standard structure
+    -- number are not that structure: skipped by their length like any unknown record
+    let f ← pick [0, 5, 1004, 1005, 1006, 1007, 1008, 1012, 1035, 1039, 2000, 4294967295,
+                  4413 * 4096 + 1001, 8800 * 4096 + 1002, 4096 + 1, 4096 + 3, 9 * 4096 + 4, 4096 + 1003, 0xfffff * 4096 + 2]
+    let n ← range 0 14
     pure (.unknown f (← bytesOf (4 * n)))
 
 def genCRecord : G SCRecord := do
@@ -55,8 +58,8 @@ def genCRecord : G SCRecord := do
     let vs ← Goflow.Sflow.ethCountersW.mapM (fun w => bitsVal (8 * w))
     pure (.eth vs)
   | _ => do
-    let f ← pick [0, 3, 4, 5, 1001, 2000]
-    let n ← range 0 10
+    let f ← pick [0, 3, 4, 5, 1001, 2000, 4096 + 1, 4413 * 4096 + 2]
+    let n ← range 0 24
     pure (.unknown f (← bytesOf (4 * n)))
 
 def defaultFrame : G Bytes := do
